@@ -1,4 +1,4 @@
-(* C04/NoLossRun.v — every event of the C04 alphabet admitted by NoLossSched.c04_ok_ev keeps the invariants of
+(* C04/NoLossRun.v — every event of the C04 alphabet accepted by NoLossSched.c04_ok_ev keeps the invariants of
    the C01 visibility proof (G and low) on the underlying Cluster state; hence the visibility ladder holds along
    every C04 schedule: faults, detection, recovery steps, PullTract that skips damaged sources. *)
 From Coq Require Import List ZArith Bool Lia.
@@ -50,7 +50,7 @@ Proof.
     destruct (e =? cl_NoError); [inversion H; subst; exact P|]. eapply pulled_trans; [exact P | eapply IH; eauto].
 Qed.
 
-(* the pull of a request admitted by the schedule predicate: the copy is untouched, removed, or replaced by the
+(* the pull of a request accepted by the schedule predicate: the copy is untouched, removed, or replaced by the
    copy of a replica one version ahead of the durable record *)
 Lemma pulled_repl_out : forall st reps1 x tk ver dv H,
   tget (s_dtr st) tk = Some (dv, H) -> ver <= dv + 1 ->
